@@ -2,6 +2,18 @@
 // type-directed random values of the hub's concrete protobuf Go types,
 // marshals them with the real application codec and prints one line per value
 // (value text, wire bytes, round-trip verdicts).
+//
+// Output of Run (one line each; the Lean model `hubmodel --probe` answers line by line):
+//
+//	anytypes <name> <name> …
+//	    the sentinel.* messages the interface registry resolves (what an Any may hold), sorted;
+//	    model answer: `ok` | `DIFF model=<its list>`
+//	pb <type> <value text> => <wire hex|-|err:…> rt=<1|0|err:…> strict=<0|1> json_rt=<1|0|err:…> json=<tree|-|err:…>
+//	    json_rt: real MarshalJSON then UnmarshalJSON of the value gives it back (modulo the identifications
+//	    of equal.go); json: canonical text (canonjson.go) of MarshalJSON of the value as read back from its
+//	    bytes (its binary normal form), `-` if it did not come back;
+//	    model answer: `<model wire hex|err:…> ;; json=<1|0|-> <canonical text of the model's JSON tree|->`
+//	    (json=1|0 is the model's PREDICTION of json_rt; Hub/SDK/ProtoJson.lean, Hub/Props/C19Json.lean)
 package probe19
 
 import (
